@@ -4,6 +4,7 @@ from enum import Enum
 
 from flamapy.core.exceptions import FlamaException
 from flamapy.core.models import AST, VariabilityModel, VariabilityElement, ASTOperation
+from flamapy.core.models.ast import Node
 from flamapy.core.models.ast import LOGICAL_OPERATORS, ARITHMETIC_OPERATORS, AGGREGATION_OPERATORS
 from flamapy.core.models.ast import simplify_formula, propagate_negation, to_cnf
 
@@ -659,9 +660,31 @@ def left_right_features_from_simple_constraint(
     return (left, right)
 
 
+def expand_xor_and_equivalence(node: Node) -> Node:
+    """Return an equivalent formula (new nodes) without the XOR and EQUIVALENCE operators.
+
+    P XOR Q is rewritten as (P AND NOT Q) OR (NOT P AND Q) and P EQUIVALENCE Q as
+    (P IMPLIES Q) AND (Q IMPLIES P), so that the remaining operators can be handled by
+    the normal-form conversions of the core (which mishandle these two operators).
+    """
+    if node is None or not node.is_op():
+        return node
+    left = expand_xor_and_equivalence(node.left)
+    right = expand_xor_and_equivalence(node.right)
+    if node.data == ASTOperation.XOR:
+        return Node(ASTOperation.OR,
+                    Node(ASTOperation.AND, left, Node(ASTOperation.NOT, right)),
+                    Node(ASTOperation.AND, Node(ASTOperation.NOT, left), right))
+    if node.data == ASTOperation.EQUIVALENCE:
+        return Node(ASTOperation.AND,
+                    Node(ASTOperation.IMPLIES, left, right),
+                    Node(ASTOperation.IMPLIES, right, left))
+    return Node(node.data, left, right)
+
+
 def split_constraint(constraint: Constraint) -> list[Constraint]:
     """Given a constraint, split it in multiple constraints separated by the AND operator."""
-    asts = split_formula(constraint.ast)
+    asts = split_formula(AST(expand_xor_and_equivalence(constraint.ast.root)))
     asts_simplified = [simplify_formula(ast) for ast in asts]
     asts = []
     for ctc in asts_simplified:
